@@ -91,8 +91,9 @@ def main(argv=None):
     proof_lost = []
     # escalation: a failed proof obligation triggers the thorough native rings as counterexample search
     failed_proof_units = [r for r in results if any(o["expect"] == "proved" and o["status"] != "proved"
-                                                    for o in r["obligations"]) and not r["failures"]]
-    if failed_proof_units and a.tier == "quick" and not a.only and not any(r["failures"] for r in results):
+                                                    for o in r["obligations"])]
+    if failed_proof_units and a.tier == "quick" and not a.only and not any(
+            not match_finding(findings, prop, r["unit"], cls=f["cls"] or "?") for r in results for f in r["failures"]):
         need = [o for r in failed_proof_units for o in r["obligations"]
                 if o["expect"] == "proved" and o["status"] != "proved"
                 and not match_finding(findings, prop, r["unit"], obligation=o["name"])]
@@ -111,6 +112,9 @@ def main(argv=None):
             except Exception:
                 traceback.print_exc()
 
+    def _new_native(rr):
+        return [f for f in rr["failures"] if not match_finding(findings, prop, rr["unit"], cls=f["cls"] or "?")]
+    any_new_native = any(_new_native(rr) for rr in results)
     for r in results:
         exp_u = expected.get("units", {}).get(r["unit"], {})
         changed = exp_u.get("files") is not None and exp_u.get("files") != r["files"]
@@ -126,8 +130,12 @@ def main(argv=None):
         for o in r["obligations"]:
             if o["expect"] == "fail":
                 if o["status"] == "proved":
-                    print("TOOL-ERROR canary %s was discharged: the obligation set is vacuous or the engine unsound" % o["name"])
-                    tool_err = True
+                    if changed:
+                        # on changed source a canary may hold on a path the change introduced; reported, not a verdict
+                        print("CANARY-DISCHARGED %s (source changed since pinning; ignored for the verdict)" % o["name"])
+                    else:
+                        print("TOOL-ERROR canary %s was discharged: the obligation set is vacuous or the engine unsound" % o["name"])
+                        tool_err = True
                 continue
             if o["status"] == "proved":
                 continue
@@ -137,10 +145,11 @@ def main(argv=None):
                                                                      solver_output=o.get("detail"), goal=o.get("goal")))
                 known.append((kf, rp, o))
                 continue
-            if any(f for f in r["failures"]):
+            if _new_native(r):
                 continue   # the unit already produced a replayed input
-            if any(rr["failures"] for rr in results):
-                # a ring found a failing input for this property; attribute the open obligation to it
+            if any_new_native:
+                # a ring found a NEW failing input for this property (reported above with its replay);
+                # the open obligation is attributed to it
                 continue
             was_proved = o["name"] in exp_u.get("proved", [])
             rp = write_replay(prop, r["unit"], o["name"], dict(kind="obligation", status=o["status"],
